@@ -720,7 +720,7 @@ func main() {
 		runCase(idx, nil)
 		return
 	}
-	total := len(cp) + f.Count(30, 1200)
+	total := len(cp) + f.Count(24, 1000)
 	outs := make([]outcome, total)
 	var wg sync.WaitGroup
 	sem := make(chan struct{}, 12)
